@@ -271,7 +271,7 @@ func runInstance(sh *Shared, fn *ssa.Function, params []int, cfg runCfg) (res In
 		tb.Reset()
 		in := &Interp{prog: sh.prog, tb: tb, sol: sol, ex: ex, sh: sh,
 			globals: map[*ssa.Global]*Node{}, pristine: ph, memo: map[interface{}]interface{}{}, nameCount: map[string]int{},
-			params: params, harness: fn.String(), maxSteps: cfg.maxSteps, unwind: cfg.unwind, maxCallDepth: 200, reached: map[string]bool{}}
+			params: params, harness: fn.String(), deadline: deadline, maxSteps: cfg.maxSteps, unwind: cfg.unwind, maxCallDepth: 200, reached: map[string]bool{}}
 		ex.pos = 0
 		sol.Push()
 		outcome := runPath(in, fn)
